@@ -3,6 +3,6 @@
 P="$1"; shift
 git -C /repo status --short | grep -q . && { echo "/repo not clean"; exit 9; }
 git -C /repo apply "$P" || exit 8
-for prop in "$@"; do (cd /verif && ./check $prop quick 2>&1 | grep -E "^ |VIOLATION|HARNESS|runs," | cut -c1-250 | head -6); done
+for prop in "$@"; do (cd /verif && VERIF_EVIDENCE_DIR=/tmp/ev_mut ./check $prop quick 2>&1 | grep -E "^ |VIOLATION|HARNESS|runs," | cut -c1-250 | head -6); done
 git -C /repo checkout -- .
 git -C /repo status --short
